@@ -1019,9 +1019,11 @@ class FunctionalQuadraticPerturb(Functional):
                 "Complex-valued `constant` coefficient is not supported.")
         self.__constant = constant.real
 
+        # A nonzero constant makes the functional affine, not linear
         super(FunctionalQuadraticPerturb, self).__init__(
             space=func.domain,
-            linear=func.is_linear and (quadratic_coeff == 0),
+            linear=(func.is_linear and quadratic_coeff == 0 and
+                    self.__constant == 0),
             grad_lipschitz=grad_lipschitz)
 
     @property
